@@ -43,10 +43,21 @@ def updateRedirects (ρ : List (Str × Str) → List (Str × Str)) (redirects : 
     List (Str × Str) :=
   (ρ redirects).map (fun e => if e.2 = old then (e.1, new) else e)
 
+/-- site 5 — `resolve_imports` (error path of an explicit import that cannot be merged):
+`instantiations.iter().filter(|(k, _)| are_semver_compatible(k, name)).map(|(_, v)| *v).min()
+ .unwrap_or(n)`: the smallest node index among the instantiations that left an import on the
+track of `name` unsatisfied, `ρ` being the iteration order of the hash map. -/
+def firstOnTrack (ρ : List (Str × Nat) → List (Str × Nat)) (insts : List (Str × Nat))
+    (onTrack : Str → Bool) (dflt : Nat) : Nat :=
+  match ((ρ insts).filter (fun e => onTrack e.1)).map (·.2) with
+  | [] => dflt
+  | x :: xs => xs.foldl min x
+
 /-- the sites that are modelled above (each has a `site_…_insensitive` theorem) -/
 def modelledSites : List Generated.HashSite := [
   ⟨"crates/wac-graph/src/graph.rs", "unregister_package", "self.imports", "retain", 0⟩,
   ⟨"crates/wac-graph/src/graph.rs", "encode_imports", "explicit_imports", "for", 0⟩,
+  ⟨"crates/wac-graph/src/graph.rs", "resolve_imports", "instantiations", "iter", 0⟩,
   ⟨"crates/wac-types/src/aggregator.rs", "find_semver_compatible_interface", "self.interfaces", "for", 0⟩,
   ⟨"crates/wac-types/src/aggregator.rs", "aggregate", "self.name_redirects", "values_mut", 0⟩
 ]
